@@ -202,3 +202,48 @@ Example C04_run_oracle_rejects_result_missing_a_commit :
   run_okb true 3 [ERoot 0; EFork 0 [1]; EConsume 0 0; EFork 0 [2]; EConsume 2 1; EConsume 0 2; EFinalize 0] = false /\
   run_okb false 3 [ERoot 0; EFork 0 [1]; EConsume 0 0; EFork 0 [2]; EConsume 2 1; EConsume 0 2; EFinalize 0] = true.
 Proof. vm_compute. split; reflexivity. Qed.
+
+(* ---------- large plans (generator family [scale]) ----------
+   The list-based checkers above are quadratic in the length of the plan.  Plans of 10^4 .. 10^6 actions (histories with
+   more than 2^16 branch indexes) are judged by [fast_c04] (coq/theories/Plan/FastPlan.v: the branch table is a binary trie,
+   commits are binary numbers; an action is a [faction], [to_action] = the action of Syntax.v it stands for).  It is EXACT
+   for the lifecycle part of C04 over the same abstract executor: it accepts a plan iff every action is executed in a
+   state that allows it ([lifecycle_ok]: created once, as a root or as the target of a fork of a live branch; never used,
+   hibernated, disposed or re-created after its disposal; a hibernated branch is booted before its next use, never
+   hibernated twice, never disposed while hibernated; merges join pairwise distinct live branches), nothing is left
+   hibernated at the end, and the participants of every merge analysed the same commit last.  So a rejection is a
+   property failure and an acceptance establishes these clauses.  Not covered at this size: that the commit of a merge
+   has two non-redundant parents and the master-branch clause (they need ancestor sets: [c04_ok] on small graphs). *)
+From Coq Require Import NArith.
+From Herc Require Import Plan.FastPlan Plan.FastPlanSound.
+
+Theorem C04_fast_exact : forall p : list faction,
+  fast_c04 p = true <->
+  (lifecycle_ok (map to_action p) /\
+   nothing_hibernated (run init (map to_action p)) /\
+   forall p1 m p2, map to_action p = p1 ++ m :: p2 -> kind m = KMerge ->
+     exists c, forall b, In b (items m) -> last_on (run init p1) b = Some c).
+Proof. exact fast_c04_exact. Qed.
+Print Assumptions C04_fast_exact.
+
+Definition fC (c : N) (b : Z) : faction := mkFA KCommit (Some c) [b].
+Definition fdiamond_hib : list faction :=
+  [mkFA KEmerge (Some 0%N) [1%Z]; fC 0 1; mkFA KFork (Some 0%N) [1%Z; 2%Z]; mkFA KHibernate (Some 0%N) [2%Z]; fC 1 1;
+   mkFA KBoot (Some 2%N) [2%Z]; fC 2 2; fC 3 1; fC 3 2; mkFA KMerge None [1%Z; 2%Z]; mkFA KDelete None [2%Z]].
+Example C04_fast_accepts_hibernated_diamond : fast_c04 fdiamond_hib = true.
+Proof. vm_compute. reflexivity. Qed.
+(* it agrees with the list-based checker on that plan *)
+Example C04_fast_agrees_on_hibernated_diamond : hb_outb (map to_action fdiamond_hib) = true.
+Proof. vm_compute. reflexivity. Qed.
+Example C04_fast_rejects_use_after_disposal :
+  fast_c04 [mkFA KEmerge None [1%Z]; fC 0 1; mkFA KFork None [1%Z; 2%Z]; mkFA KDelete None [2%Z]; fC 1 2] = false.
+Proof. vm_compute. reflexivity. Qed.
+Example C04_fast_rejects_second_creation :
+  fast_c04 [mkFA KEmerge None [1%Z]; fC 0 1; mkFA KFork None [1%Z; 2%Z]; fC 1 2; mkFA KFork None [1%Z; 2%Z]] = false.
+Proof. vm_compute. reflexivity. Qed.
+Example C04_fast_rejects_delete_of_disposed :
+  fast_c04 [mkFA KEmerge None [1%Z]; fC 0 1; mkFA KFork None [1%Z; 2%Z]; mkFA KDelete None [2%Z]; mkFA KDelete None [2%Z]] = false.
+Proof. vm_compute. reflexivity. Qed.
+Example C04_fast_rejects_left_hibernated :
+  fast_c04 [mkFA KEmerge None [1%Z]; fC 0 1; mkFA KFork None [1%Z; 2%Z]; mkFA KHibernate None [2%Z]; fC 1 1] = false.
+Proof. vm_compute. reflexivity. Qed.
